@@ -31,7 +31,7 @@ def generate(ctx):
             for j in r.sample(EXT, 5):
                 for p in ('R;I(x%d)' % i, 'R;I(l%d)' % i, 'R;I(Sx%d~l%d)' % (i, j), 'R;I(Sl%d~x%d)' % (i, j), 'R;I(Sl%d~l%d,x%d)' % (i, j, j)):
                     ctx.add('select %s %s all' % (e, p), kind='extreme')
-    # `last - 2147483648` etc. through the parser (saturating_neg)
+    # `last - 2147483648` etc. through the parser (i64 then checked_neg and i32::try_from; was saturating_neg)
     for t in (b'$[last - 2147483648]', b'$[last + 2147483647]', b'$[-2147483648 to last]', b'$[last-2147483647 to 2147483647]', b'{-2147483648}', b'{2147483647}'):
         ctx.add(('parse_json_path %s' if t[:1] == b'$' else 'parse_key_paths %s') % gen.hexarg(t), kind='extreme')
     ctx.deep = []
